@@ -93,6 +93,14 @@ def _bisect_shape(tree):
         slack = a1.right.value
     else:
         raise T.TranslateError("_object_offset: second bisect argument is neither `end` nor `end - k`")
+    # `if start == end: raise KeyError(sha)` in front of the call (the empty group)
+    guard = 0
+    for n in ast.walk(o):
+        if isinstance(n, ast.If) and ast.unparse(n.test) in ("start == end", "start >= end", "end == start", "end <= start") \
+                and isinstance(n.body[0], ast.Raise) and "KeyError" in ast.unparse(n.body[0]):
+            guard = 1
+    if slack not in (0, 1) or (slack == 1) != (guard == 1):
+        raise T.TranslateError(f"_object_offset: unexpected combination of bound `end - {slack}` and empty-group guard {guard}")
     # `end = self._fan_out_table[idx]`, `start = self._fan_out_table[idx - 1]`
     subs = []
     for n in ast.walk(o):
@@ -116,7 +124,7 @@ def _bisect_shape(tree):
             bad = 0
     if bad is None:
         raise T.TranslateError("bisect_find_sha: no `start <= end` precondition found")
-    return inclusive, slack, body_ints, bad
+    return inclusive, slack, body_ints, bad, guard
 
 
 def translate(repo: Path) -> dict:
@@ -159,7 +167,7 @@ def translate(repo: Path) -> dict:
     if u2 != u3:
         raise T.TranslateError("PackIndex2/3._unpack_offset differ")
     ld = _ints(tree, "load_pack_index_file", 6)
-    inclusive, slack, bs, bad_bounds = _bisect_shape(tree)
+    inclusive, slack, bs, bad_bounds, guard = _bisect_shape(tree)
     # struct formats of the v1 entry
     v1fmt = [n.value for n in ast.walk(T.find_def(tree, "write_pack_index_v1"))
              if isinstance(n, ast.Constant) and isinstance(n.value, str) and n.value.startswith(">")]
@@ -213,6 +221,7 @@ def translate(repo: Path) -> dict:
         "loadMagicLen": ld[0], "loadVersionAt": ld[1], "loadVersionEnd": ld[2],
         "bisectDiv": bs[0], "bisectUp": bs[1], "bisectDown": bs[2],
         "bisectInclusive": inclusive, "lookupEndSlack": slack, "bisectBadBoundsIsAssert": bad_bounds,
+        "lookupEmptyGroupIsKeyError": guard,
         "sha1Fmt": inv["SHA1"], "sha1Len": fmts["SHA1"][1], "sha256Fmt": inv["SHA256"], "sha256Len": fmts["SHA256"][1],
     }
     body = "".join(f"def {k} : Nat := {v}\n" for k, v in d.items())
@@ -1001,6 +1010,16 @@ def build_records(objs, opts, scratch: Path):
     store = DiskObjectStore(str(sd))
     try:
         ids = [(o.id, None) for o in sf]
+        # the public entry point on the same (possibly duplicate-bearing) id list: must not raise, and must count
+        # what it writes
+        import io
+        wb = io.BytesIO()
+        try:
+            went, _ = P.write_pack_from_container(wb.write, store, ids, SHA1, reuse_deltas=True, deltify=opts["deltify"],
+                                                  delta_window_size=opts["window"], compression_level=opts["level"])
+            opts["_wpfc"] = (wb.getvalue(), {bytes(k) for k in went})
+        except Exception as e:  # noqa: BLE001 - reported by the caller
+            opts["_wpfc"] = f"{type(e).__name__}: {str(e)[:120]}"
         return list(P.generate_unpacked_objects(store, ids, reuse_deltas=True, deltify=opts["deltify"],
                                                 delta_window_size=opts["window"]))
     finally:
@@ -1026,7 +1045,8 @@ def pack_case(ctx, stream, objs, opts, workers=None, model=True, git=False):
     import dulwich.pack as P
     from dulwich.object_format import SHA1
     rng = ctx.rng
-    case = {"kind": "pack", "opts": opts, "objs": [[t, hx(d)] for t, d in objs]}
+    opts = {k: v for k, v in opts.items() if not k.startswith("_")}
+    case = {"kind": "pack", "opts": dict(opts), "objs": [[t, hx(d)] for t, d in objs]}
     want = expected_mapping(objs)
     has_dups = len(want) != len(objs)
     tag = f"{opts['path']}:{'delta' if opts['deltify'] else 'full'}:v{opts['version']}:n{min(len(objs), 9)}{'+' if len(objs) > 9 else ''}"
@@ -1044,6 +1064,17 @@ def pack_case(ctx, stream, objs, opts, workers=None, model=True, git=False):
         idxb = ibuf.getvalue()
     except Exception as e:
         return _fail(ctx, stream, case, f"writing the pack/index failed: {type(e).__name__}: {e}")
+    wp = opts.pop("_wpfc", None)
+    if wp is not None:
+        if isinstance(wp, str):
+            return _fail(ctx, stream, case, f"write_pack_from_container failed on this id list: {wp}",
+                         "duplicate-input-objects" if len(want) != len(objs) else None)
+        wbytes, wnames = wp
+        if int.from_bytes(wbytes[8:12], "big") != len(want) or wnames != set(want) \
+                or hashlib.sha1(wbytes[:-20]).digest() != wbytes[-20:]:
+            return _fail(ctx, stream, case, f"write_pack_from_container wrote a pack header counting {int.from_bytes(wbytes[8:12], 'big')} "
+                         f"records and {len(wnames)} entries for {len(want)} distinct objects",
+                         "duplicate-input-objects" if len(want) != len(objs) else None)
     kinds = {"full": 0, "ofs": 0, "ref": 0}
     comp_reused = any(r.comp_chunks is not None for r in recs)
     dup_recs = len({bytes(r.sha()) for r in recs}) != len(recs)
@@ -1152,7 +1183,7 @@ def pack_case(ctx, stream, objs, opts, workers=None, model=True, git=False):
     d = ctx.hist.setdefault(stream + ".entry-kinds", {})
     for k, v in kinds.items():
         d[k] = d.get(k, 0) + v
-    if not ok or cls is not None:
+    if not ok:
         _rm_pack_files(base)
         return ok
     # ---------------- streaming reader under a random chunking of the same bytes
@@ -1201,7 +1232,7 @@ def _pack_model(ctx, stream, case, recs, opts, pack, entries, idxb, names, absen
     args = []
     for r in recs:
         data = b"".join(r.decomp_chunks)
-        comp = compress_chunks(r.decomp_chunks, opts["level"])
+        comp = b"".join(r.comp_chunks) if r.comp_chunks is not None else compress_chunks(r.decomp_chunks, opts["level"])
         args.append(f"{hx(bytes(r.sha()))}:{r.pack_type_num}:{hx(r.delta_base) if r.delta_base is not None else '-'}:{hx(data)}:{hx(comp)}")
     lines.append("c02.packwrite" + "".join(" " + a for a in args))
     zt = ztable(pack)
